@@ -836,7 +836,6 @@ func a4FilterReviewed(ws []a4Write) (kept []a4Write, reviewed []string) {
 	return
 }
 
-
 // cleanIdiomWrite: the write is the in-place path normalisation of an artifact map, wherever it is written: inside a
 // range over the map, m[path.Clean(k)] = m[k] under the guard path.Clean(k) != k, or the delete(m, k) next to it; and it
 // happens below VerifyArtifacts, i.e. on the artifact maps of links that this verification loaded or recorded itself
